@@ -179,6 +179,31 @@ func (l *leakCtx) checkOp(res OpResult, what string) bool {
 	if !l.scan(res.Out.Stdout, "stdout", what) || !l.scan(res.Out.Stderr, "stderr", what) || !l.scan(res.Out.Log, "log", what) {
 		return false
 	}
+	// what a client does next with a password: ask for its index kind, store the index, read it back
+	if res.P != nil {
+		m := mark()
+		errText := ""
+		func() {
+			defer func() {
+				if r := recover(); r != nil {
+					errText = fmt.Sprint(r)
+				}
+			}()
+			_ = res.P.Tokens().Kind()
+			ix, err := res.P.Tokens().MakeIndices()
+			if err != nil {
+				errText = err.Error()
+			} else if _, err := spg.Tokenize(res.P.String(), ix, res.P.Entropy); err != nil {
+				errText = err.Error()
+			}
+		}()
+		out := since(m)
+		c.T(out.String(), errText)
+		c.Count("index_operations_monitored", 1)
+		if !l.scan(out.Stdout, "stdout", "Kind/MakeIndices/Tokenize") || !l.scan(out.Stderr, "stderr", "Kind/MakeIndices/Tokenize") || !l.scan(out.Log, "log", "Kind/MakeIndices/Tokenize") || !l.scan(errText, "error-text", "Kind/MakeIndices/Tokenize") {
+			return false
+		}
+	}
 	if !l.scan(res.Err, "error-text", what) || !l.scan(res.Panic, "panic-text", what) {
 		return false
 	}
